@@ -63,3 +63,11 @@ claim("C12", "DESIGN.md 5/C12",
       "log's severity class and hidden/report flags (so that it may be filtered out); decodable, truncated and junk "
       "inputs. Assertion over the recorded event list: the input is removed iff --clean was given, the log was "
       "selected and decoded, and its output was emitted completely without fault - and only after that.")
+
+claim("C11", "DESIGN.md 5/C11",
+      "The real main() is executed with every boolean switch symbolic and every string option a symbolic choice "
+      "(absent / catalogue value) over an in-memory tree with top-level files, an archive and a nested directory; every "
+      "recorded remove must be justified by a given option under that option's rule (top level only, name contains the "
+      "id, at most one), without delete/clean options nothing is removed, files are created only under --json and only "
+      "as <pel file>.<entry id>.json in the chosen directory; dedicated harnesses for --delete (id spelling symbolic, "
+      "id present at top level / only in the archive / nowhere / in the directory path) and --delete-all.")
